@@ -86,12 +86,30 @@ pub fn prove_and_verify<C: GenericConfig<D, F = F>>(built: &Built<C>, pw: Partit
         Ok(Err(e)) => return (Outcome::ProverErr(e.to_string()), None),
         Err(p) => return (Outcome::ProverPanic(format!("{} @ {}", p.msg, norm_loc(&p.loc))), None),
     };
-    match catch(|| built.data.verify(proof.clone())) {
-        Ok(Ok(())) => (Outcome::Accepted, Some(proof)),
-        Ok(Err(e)) => (Outcome::Rejected(e.to_string()), Some(proof)),
-        Err(p) => (Outcome::VerifierPanic(format!("{} @ {}", p.msg, norm_loc(&p.loc))), Some(proof)),
+    let plain = match catch(|| built.data.verify(proof.clone())) {
+        Ok(Ok(())) => return (Outcome::Accepted, Some(proof)),
+        Ok(Err(e)) => Outcome::Rejected(e.to_string()),
+        Err(p) => Outcome::VerifierPanic(format!("{} @ {}", p.msg, norm_loc(&p.loc))),
+    };
+    // "no accepted proof" ranges over every verification entry point: stand-alone verifier data and the
+    // compressed form must say no as well
+    let by_verifier_data = matches!(catch(|| built.data.verifier_data().verify(proof.clone())), Ok(Ok(())));
+    let by_compressed = matches!(
+        catch(|| built.data.compress(proof.clone()).and_then(|c| built.data.verify_compressed(c))),
+        Ok(Ok(()))
+    );
+    ALT_PATH_CHECKS.fetch_add(2, std::sync::atomic::Ordering::Relaxed);
+    if by_verifier_data || by_compressed {
+        ALT_PATH_ACCEPTS.fetch_add(1, std::sync::atomic::Ordering::Relaxed);
+        return (Outcome::Accepted, Some(proof));
     }
+    (plain, Some(proof))
 }
+
+/// Rejected proofs additionally presented to `VerifierCircuitData::verify` and `verify_compressed`.
+pub static ALT_PATH_CHECKS: std::sync::atomic::AtomicU64 = std::sync::atomic::AtomicU64::new(0);
+/// ... of which accepted there although the plain verifier rejected.
+pub static ALT_PATH_ACCEPTS: std::sync::atomic::AtomicU64 = std::sync::atomic::AtomicU64::new(0);
 
 /// A partition witness in which every target is its own class, filled from `pw`.
 pub fn explode<'a>(pw: &PartitionWitness<F>, id_map: &'a [usize]) -> PartitionWitness<'a, F> {
@@ -672,5 +690,7 @@ pub fn run(tier: Tier) -> ! {
         }
         run.set_extra("matrix_strategy_site_outcome", json!(matrix));
     }
+    run.count("rejected_proofs_also_presented_to_verifier_data_and_compressed_paths", ALT_PATH_CHECKS.load(std::sync::atomic::Ordering::Relaxed));
+    run.count("accepted_only_by_an_alternative_path", ALT_PATH_ACCEPTS.load(std::sync::atomic::Ordering::Relaxed));
     run.finish()
 }
